@@ -760,7 +760,7 @@ Lemma fire_body_ok : forall call b d e, call_ok call -> exit_inert (d_m d) = tru
 Proof.
   intros call b d e OK I P. unfold fire_body.
   destruct (d_cur d) as [|leaf [|x rr]]; try (simpl; auto).
-  destruct (pick (held (d_m d)) e leaf) as [t|]; [|simpl; auto].
+  destruct (pick (held (d_m d)) e leaf) as [[t k]|]; [|simpl; auto].
   destruct (t_dst t) as [dst|]; [|simpl; auto].
   rewrite (run_cbs_inert call (m_acts (d_m d)) (m_regen (d_m d)) (cbs_of (m_states (d_m d)) (t_src t) s_exit))
     by (intros c Hc; apply (exit_cbs_inert (d_m d) (t_src t) c I Hc)).
@@ -768,7 +768,7 @@ Proof.
   match goal with |- context [run_cbs call ?A ?R ?C ?S] => remember (run_cbs call A R C S) as st3 eqn:E3 end.
   assert (G : d_m (fst st3) = d_m d /\ pre_inv (fst st3)).
   { subst st3. apply run_cbs_pres; auto.
-    intro n. simpl. destruct (nl_eqb n (t_src t)) eqn:En.
+    intro n. simpl. destruct (nl_eqb n (skipn k (t_src t))) eqn:En.
     - apply nl_eqb_eq in En. subst. repeat split; auto; try discriminate.
     - repeat split; auto; try discriminate. }
   destruct G as [G1 G2]. pose proof (activate_inv (fst st3) G2) as A.
@@ -1078,4 +1078,27 @@ Proof.
   apply (decl_in_nodes (m_opts (d_m d)) _ (m_states (d_m d) ++ l) ([], s) W).
   unfold all_subtrees. rewrite flat_map_app. apply in_or_app. right.
   apply in_flat_map. exists s. split; auto. destruct s. simpl. left. reflexivity.
+Qed.
+
+(* ------------------------------------------------------------------ transitions declared in nested scopes *)
+Lemma tlabel_prefix : forall o p t, tlabel o (prefix_trans p t) = tlabel o t.
+Proof. intros o p t. unfold tlabel, prefix_trans. simpl. destruct (t_dst t); reflexivity. Qed.
+
+Lemma scoped_edges : forall m st p t, In (p, t) (m_scoped m) -> wf_trans t = true ->
+  let s := p ++ t_src t in
+  let d := p ++ dst_of t in
+  In (Edge s d (labels_for (m_opts m) (elements m) s d)) (render_full m st)
+  /\ In (tlabel (m_opts m) t) (labels_for (m_opts m) (elements m) s d).
+Proof.
+  intros m st p t H W s d.
+  assert (E : In (prefix_trans p t) (elements m)).
+  { unfold elements, scoped_abs. apply in_or_app. right. apply in_or_app. right.
+    apply in_map_iff. exists (p, t). auto. }
+  assert (L : tlabel (m_opts m) (prefix_trans p t) <> []).
+  { rewrite tlabel_prefix. apply tlabel_nonempty. auto. }
+  destruct (view_edges_all m st (prefix_trans p t) E L) as [A B].
+  assert (S : t_src (prefix_trans p t) = s) by reflexivity.
+  assert (D : dst_of (prefix_trans p t) = d).
+  { unfold d, dst_of, prefix_trans. simpl. destruct (t_dst t); reflexivity. }
+  rewrite S, D, tlabel_prefix in *. auto.
 Qed.
